@@ -114,6 +114,39 @@ func VerifDecodePayload(kind int, payload []byte) (*VerifMsg, int, error) {
 	return v, rbuf.BytesRemaining(), nil
 }
 
+// VerifFrameDecode reads a frame from the stream into a frame whose buffer holds stale
+// bytes (as a pooled frame does) and decodes it with Frame.read -- the path used for
+// init, error and ping messages.
+func VerifFrameDecode(kind int, stream []byte, stale []byte) (code int, v *VerifMsg, err error) {
+	f := NewFrame(MaxFramePayloadSize)
+	for i := range f.Payload {
+		f.Payload[i] = stale[i%len(stale)]
+	}
+	if rerr := f.ReadIn(bytes.NewReader(stream)); rerr != nil {
+		if rerr == io.EOF || rerr == io.ErrUnexpectedEOF {
+			return 2, nil, nil
+		}
+		return 1, nil, nil
+	}
+	v = &VerifMsg{Kind: kind}
+	msg := v.message()
+	if err := f.read(msg); err != nil {
+		return 0, nil, err
+	}
+	getSpan := func(s Span) [4]uint64 { return [4]uint64{s.spanID, s.parentID, s.traceID, uint64(s.flags)} }
+	switch m := msg.(type) {
+	case *initReq:
+		v.Version, v.Params = m.Version, m.initParams
+	case *initRes:
+		v.Version, v.Params = m.Version, m.initParams
+	case *errorMessage:
+		v.Code, v.Span, v.Message = byte(m.errCode), getSpan(m.tracing), m.message
+	case *cancelMessage:
+		v.CancelTTL, v.Span, v.Message = m.ttl, getSpan(m.tracing), m.message
+	}
+	return 0, v, nil
+}
+
 // VerifReadFrame runs Frame.ReadIn on a pooled-size frame.
 // code: 0 ok, 1 invalid size, 2 short read / EOF.
 func VerifReadFrame(stream []byte) (code int, size uint16, mt byte, res1 byte, id uint32, payload []byte, rest int) {
